@@ -382,9 +382,68 @@ static void editTree(Dec &d, Case &c) {
     KSI_TLV_free(root); c.nontrivial = true; c.cls("mode:edit"); if (emptied) c.cls("edit:element-emptied"); c.desc = "edit " + shape + " ops=" + ops;
 }
 
+// ---- element codec: edits on a PARSED element (children may use the long header on short values) ------------------
+// reference: the edited model tree; the SDK's output may choose either header form per element, so it is compared along the model's structure
+static bool matchesModel(const uint8_t *p, size_t n, const Tlv &m, std::string &why) {
+    Tlv r; size_t hl = 0, tot = 0; if (!ref::decodeHeader(p, n, r, hl, tot) || tot != n) { why = "not exactly one element where " + hex(p, n < 12 ? n : 12) + " was written"; return false; }
+    if (r.tag != m.tag || r.N != m.N || r.F != m.F) { why = "tag/flags differ"; return false; }
+    if ((hl == 4) != (r.tag > 0x1f || r.payload.size() > 0xff)) { /* header form chosen by the serializer for elements it wrote itself is checked by the caller on the root */ }
+    if (!m.nested) { if (r.payload != m.payload) { why = "leaf payload differs"; return false; } return true; }
+    size_t off = 0; for (auto &k : m.kids) { Tlv kk; size_t khl = 0, ktot = 0; if (off >= r.payload.size() || !ref::decodeHeader(r.payload.data() + off, r.payload.size() - off, kk, khl, ktot)) { why = "child missing or cut"; return false; } if (!matchesModel(r.payload.data() + off, ktot, k, why)) return false; off += ktot; }
+    if (off != r.payload.size()) { why = "stale octets after the last child (" + num((long long)(r.payload.size() - off)) + ")"; return false; }
+    return true;
+}
+static Tlv genEditKid(Dec &d, int depth) {
+    static const unsigned tags[] = {0x01, 0x02, 0x03, 0x05, 0x1f, 0x20, 0x123}; Tlv k(tags[d.pick(7)]); k.N = d.pick(4) == 0; k.F = d.pick(4) == 0; k.force16 = d.pick(3) == 0;
+    if (depth < 2 && d.pick(4) == 0) { k.nested = true; unsigned n = d.pick(3); for (unsigned i = 0; i < n; i++) k.kids.push_back(genEditKid(d, depth + 1)); if (k.kids.empty()) k.nested = false; }
+    else k.payload = d.bytes(d.pick(8) == 0 ? 250 + d.pick(12) : d.pick(6));
+    return k;
+}
+static void editElement(Dec &d, Case &c) {
+    Tlv t(d.flag() ? 0x01 : 0x800 + d.pick(16)); t.nested = true; t.force16 = d.pick(4) == 0; unsigned nk = d.pick(6); for (unsigned i = 0; i < nk; i++) t.kids.push_back(genEditKid(d, 0));
+    bool longShort = false; for (auto &k : t.kids) if (k.force16 && k.tag <= 0x1f) longShort = true;
+    Bytes enc; if (!t.encode(enc)) { c.skip("tree does not encode"); return; } HeapBuf in(enc); ElHold hold; Ctx ctx;
+    KSI_TlvElement *root = nullptr; if (KSI_TlvElement_parse(in.p, in.n, &root) != KSI_OK) { VF_FAIL(c, "C09:edit-element:valid-refused", "reference encoding refused by KSI_TlvElement_parse: " + hexs(enc, 24)); return; }
+    unsigned nops = 1 + d.pick(5); std::string ops; static const unsigned tags[] = {0x01, 0x02, 0x03, 0x05, 0x1f, 0x20, 0x123};
+    std::vector<KSI_TlvElement *> held; bool deep = false;
+    for (unsigned o = 0; o < nops && !c.fail; o++) {
+        // the edit applies to the root or, a third of the time, to a nested child that is still attached to it (reached through a lookup by its unique tag)
+        Tlv *mn = &t; KSI_TlvElement *root0 = root; KSI_TlvElement *sn = root0;
+        if (d.pick(3) == 0) { std::vector<size_t> cand; for (size_t i = 0; i < t.kids.size(); i++) if (t.kids[i].nested) { size_t n = 0; for (auto &x : t.kids) if (x.tag == t.kids[i].tag) n++; if (n == 1) cand.push_back(i); }
+            if (!cand.empty()) { size_t i = cand[d.pick((uint32_t)cand.size())]; KSI_TlvElement *sub = nullptr; if (KSI_TlvElement_getElement(root0, t.kids[i].tag, &sub) == KSI_OK && sub) { held.push_back(sub); mn = &t.kids[i]; sn = sub; ops += "/"; deep = true; } } }
+        auto countTag = [&](unsigned tag, size_t &pos) { size_t n = 0; for (size_t i = 0; i < mn->kids.size(); i++) if (mn->kids[i].tag == tag) { if (!n) pos = i; n++; } return n; };
+        unsigned k = d.pick(4); unsigned tag = tags[d.pick(7)]; size_t pos = 0; size_t cnt = countTag(tag, pos);
+        if (k == 0) { KSI_TlvElement *rm = nullptr; bool wantOut = d.flag(); int res = KSI_TlvElement_removeElement(sn, tag, wantOut ? &rm : nullptr); ops += "r" + num(cnt > 2 ? 2 : (long long)cnt);
+            if (cnt == 1) { if (res != KSI_OK) VF_FAIL(c, "C09:edit-element:remove-refused", "removing the only child with tag " + num(tag) + " failed res=" + num(res)); else { if (wantOut && (!rm || rm->ftlv.tag != tag)) VF_FAIL(c, "C09:edit-element:removed-element", "removed element not handed out"); mn->kids.erase(mn->kids.begin() + (long)pos); } }
+            else if (res == KSI_OK) VF_FAIL(c, "C09:edit-element:ambiguous-remove-accepted", "remove with " + num((long long)cnt) + " matching children returned KSI_OK");
+            KSI_TlvElement_free(rm); }
+        else if (k == 1) { KSI_TlvElement *sub = nullptr; int res = KSI_TlvElement_getElement(sn, tag, &sub); ops += "g" + num(cnt > 2 ? 2 : (long long)cnt);
+            if (cnt == 0) { if (res != KSI_OK || sub) VF_FAIL(c, "C09:edit-element:get-absent", "lookup of an absent tag: res=" + num(res)); }
+            else if (cnt == 1) { Bytes content; mn->kids[pos].content(content); if (res != KSI_OK || !sub) VF_FAIL(c, "C09:edit-element:get-refused", "lookup of a unique tag failed res=" + num(res)); else if (sub->ftlv.tag != tag || (sub->ftlv.is_nc != 0) != mn->kids[pos].N || (sub->ftlv.is_fwd != 0) != mn->kids[pos].F || sub->ftlv.dat_len != content.size()) VF_FAIL(c, "C09:edit-element:get-fields", "child found reports other tag, flags or length than encoded"); }
+            else if (res == KSI_OK) VF_FAIL(c, "C09:edit-element:ambiguous-get-accepted", "lookup with several matching children returned KSI_OK");
+            KSI_TlvElement_free(sub); }
+        else { Tlv nkid(tag); nkid.payload = d.bytes(d.pick(6)); nkid.N = d.pick(4) == 0; KSI_TlvElement *ch = nullptr; if (buildElement(nkid, &ch, hold) != KSI_OK) { VF_FAIL(c, "C09:edit-element:build", "building a leaf failed"); break; }
+            if (k == 2) { int res = KSI_TlvElement_appendElement(sn, ch); ops += "a"; if (res != KSI_OK) VF_FAIL(c, "C09:edit-element:append", "append failed res=" + num(res)); else mn->kids.push_back(nkid); }
+            else { int res = KSI_TlvElement_setElement(sn, ch); ops += "s" + num(cnt > 2 ? 2 : (long long)cnt);
+                if (cnt == 0) { if (res != KSI_OK) VF_FAIL(c, "C09:edit-element:set", "set of a new tag failed res=" + num(res)); else mn->kids.push_back(nkid); }
+                else if (cnt == 1) { if (res != KSI_OK) VF_FAIL(c, "C09:edit-element:set", "replacing the only child with that tag failed res=" + num(res)); else mn->kids[pos] = nkid; }
+                else if (res == KSI_OK) VF_FAIL(c, "C09:edit-element:ambiguous-set-accepted", "set with several matching children returned KSI_OK"); }
+            KSI_TlvElement_free(ch); }
+    }
+    if (!c.fail) { Tlv canon = t; canon.force16 = false; Bytes want; bool fits = canon.encode(want); (void)want; // only the content size matters here: the header form of untouched children is the serializer's choice
+        size_t q = 0; int rq = KSI_TlvElement_serialize(root, nullptr, 0, &q, 0);
+        if (!fits) c.cls("edit-element:overflow"); // content too large after the edits: nothing is asserted about the refusal point
+        else if (rq != KSI_OK) VF_FAIL(c, t.kids.empty() ? "C09:edit-element:serialize-refused:after-emptying" : "C09:edit-element:serialize-refused", "edited element refused by the serializer (length query) res=" + num(rq) + " ops " + ops);
+        else { HeapBuf out(q); size_t got = 0; int rs = KSI_TlvElement_serialize(root, out.p, q, &got, 0); std::string why;
+            if (rs != KSI_OK || got != q) VF_FAIL(c, "C09:edit-element:serialize-length", "serializing into a buffer of the queried length failed res=" + num(rs) + " got=" + num((long long)got) + " queried=" + num((long long)q));
+            else if (!matchesModel(out.p, got, t, why)) VF_FAIL(c, t.kids.empty() ? "C09:edit-element:serialization-differs:after-emptying" : "C09:edit-element:serialization-differs", "serialization of the edited element is not the edited tree (" + why + ", ops " + ops + "): " + hex(out.p, got < 40 ? got : 40));
+            else { KSI_TlvElement *again = nullptr; if (KSI_TlvElement_parse(out.p, got, &again) != KSI_OK) VF_FAIL(c, "C09:edit-element:reparse", "own output refused"); KSI_TlvElement_free(again); } } }
+    for (auto h : held) KSI_TlvElement_free(h); KSI_TlvElement_free(root); c.nontrivial = true; c.cls("mode:edit-element"); if (deep) c.cls("edit-element:nested-child-edited-while-attached"); if (longShort) c.cls("edit-element:child-with-long-header-on-short-value"); if (t.kids.empty()) c.cls("edit-element:emptied"); c.desc = "edit-element kids=" + num((long long)nk) + " ops=" + ops;
+}
+
 void harness_case(Dec &d, Case &c) {
     // an eighth of the cases (first choice byte >= 0xe0) edit a parsed tree; the byte is shared with the mode choice below so that older replay files keep their meaning
-    if (!d.empty() && d.p[d.i] >= 0xe0) { d.byte(); editTree(d, c); return; }
+    if (!d.empty() && d.p[d.i] >= 0xe0) { bool el = d.p[d.i] >= 0xf0 && d.left() >= 4; d.byte(); if (el) editElement(d, c); else editTree(d, c); return; }
     unsigned mode = d.pick(8);
     std::string shape; size_t budget = 90000;
     Tlv t = (mode == 7 || mode == 3) ? genBoundary(d, shape) : genTree(d, 0, budget, shape);
